@@ -58,6 +58,26 @@ pub broadcast proof fn lemma_suffix_len(a: Seq<char>, b: Seq<char>)
     lemma_utf8len_skip(a, k);
 }
 
+// ---- TRUSTED UTF-8 bridge between the char view (lexer) and the byte view (parser) of a str ----------
+/// `i` is a byte offset of `s` on a char boundary (the parser unit's `gbnd`, for an explicit input)
+pub open spec fn bnd(s: &str, i: int) -> bool { 0 <= i <= s.spec_bytes().len() && vstd::utf8::is_char_boundary(s.spec_bytes(), i) }
+// (L1) the byte length of a str is the sum of the UTF-8 lengths of its chars
+pub axiom fn axiom_utf8len_bytes(s: &str) ensures utf8len(s@) == s.spec_bytes().len();
+// (L2) the bytes of the first k chars of a str end on a char boundary
+pub axiom fn axiom_prefix_boundary(s: &str, k: int) requires 0 <= k <= s@.len() ensures bnd(s, utf8len(s@.subrange(0, k)) as int);
+pub proof fn lemma_utf8len_split(a: Seq<char>, k: int)
+    requires 0 <= k <= a.len()
+    ensures utf8len(a) == utf8len(a.subrange(0, k)) + utf8len(a.skip(k))
+    decreases k
+{
+    if k == 0 { assert(a.subrange(0, 0) =~= Seq::<char>::empty()); assert(a.skip(0) =~= a); }
+    else {
+        lemma_utf8len_split(a.drop_first(), k - 1);
+        assert(a.drop_first().subrange(0, k - 1) =~= a.subrange(0, k).drop_first());
+        assert(a.drop_first().skip(k - 1) =~= a.skip(k));
+        assert(a.subrange(0, k)[0] == a[0]);
+    }
+}
 } // verus!
 
 pub mod lexer {
@@ -435,20 +455,37 @@ impl<'i> TokenStream<'i> {
     #[verifier::prophetic]
     pub closed spec fn inv(&self) -> bool { self.cursor.at_start() && self.total() <= usize::MAX && utf8len(self.cursor.rem()) <= u32::MAX }
     pub closed spec fn pos(&self) -> int { self.consumed as int }
+    /// the stream is lexing `s` (whose first byte has offset `off` in the document): what is left is a suffix of s's
+    /// chars and `consumed` is `off` plus the UTF-8 length of the chars already taken
+    #[verifier::prophetic]
+    pub closed spec fn on(&self, s: &str, off: int) -> bool {
+        exists|k: int| 0 <= k <= s@.len() && self.cursor.rem() == #[trigger] s@.skip(k) && self.consumed_is(s, off, k)
+    }
+    pub closed spec fn consumed_is(&self, s: &str, off: int, k: int) -> bool { self.consumed == off + utf8len(s@.subrange(0, k)) }
 
 /*@ fn src/parser/token_stream.rs TokenStream::new
 tags C03 C04
 ret r
 spec:
         requires utf8len(input@) <= u32::MAX
-        ensures r.inv(), r.pos() == 0, r.total() == utf8len(input@)
+        ensures r.inv(), r.pos() == 0, r.total() == utf8len(input@), r.on(input, 0)
+enter:
+        proof { assert(input@.skip(0) =~= input@); assert(input@.subrange(0, 0) =~= Seq::<char>::empty()); }
 @*/
 
 /*@ fn src/parser/token_stream.rs TokenStream::offset
 tags C03 C04
 spec:
         requires old(self).inv(), old(self).total() + offset <= usize::MAX
-        ensures final(self).inv(), final(self).pos() == old(self).pos() + offset, final(self).total() == old(self).total() + offset
+        ensures final(self).inv(), final(self).pos() == old(self).pos() + offset, final(self).total() == old(self).total() + offset,
+            forall|s: &str, off: int| #[trigger] old(self).on(s, off) ==> final(self).on(s, off + offset),
+after `self.consumed += offset;`:
+        proof {
+            assert forall|s: &str, off: int| #[trigger] old(self).on(s, off) implies self.on(s, off + offset) by {
+                let k = choose|k: int| 0 <= k <= s@.len() && old(self).cursor.rem() == #[trigger] s@.skip(k) && old(self).consumed_is(s, off, k);
+                assert(self.consumed_is(s, off + offset, k));
+            }
+        }
 @*/
 
     // X2: `impl Iterator for TokenStream<'_> { fn next }` checked as an inherent method
@@ -465,6 +502,11 @@ spec:
             r.is_some() ==> r.unwrap().span.e() <= old(self).total(),    // [C04]
             r.is_none() ==> final(self).pos() == old(self).pos(),
             r.is_none() ==> old(self).pos() == old(self).total(),        // [C05]
+            // [C04] when the stream lexes `s` placed at document offset `off`, both ends of every token are byte offsets of `s`
+            //       on char boundaries, and an escape token is a one-byte backslash plus at most one character
+            forall|s: &str, off: int| #[trigger] old(self).on(s, off) ==> final(self).on(s, off)
+                && (r.is_some() ==> bnd(s, r.unwrap().span.s() - off) && bnd(s, r.unwrap().span.e() - off)
+                    && (r.unwrap().kind == TokenKind::Escaped ==> bnd(s, r.unwrap().span.s() + 1 - off) && r.unwrap().span.s() + 1 <= r.unwrap().span.e() <= r.unwrap().span.s() + 5)),      // [C04]
 before `let t = self.cursor.advance_token();`:
         broadcast use lemma_suffix_len;
 after `let t = self.cursor.advance_token();`:
@@ -477,6 +519,35 @@ after `self.consumed += t.len as usize;`:
             assert(self.total() == old(self).total());
             if t.kind == TokenKind::Eof { assert(old(self).cursor.rem().len() == 0); assert(self.cursor.rem().len() == 0); assert(t.len == 0); }
             else { assert(old(self).cursor.rem().len() > 0); assert(t.len >= 1); }
+            assert forall|s: &str, off: int| #[trigger] old(self).on(s, off) implies self.on(s, off)
+                && bnd(s, start - off) && bnd(s, self.consumed - off)
+                && (t.kind == TokenKind::Escaped ==> bnd(s, start + 1 - off) && start + 1 <= self.consumed <= start + 5) by {
+                let k0 = choose|k: int| 0 <= k <= s@.len() && old(self).cursor.rem() == #[trigger] s@.skip(k) && old(self).consumed_is(s, off, k);
+                let r0 = old(self).cursor.rem(); let r1 = self.cursor.rem();
+                let n = r0.len() - r1.len();
+                let kk = choose|kk: int| 0 <= kk <= r0.len() && r1 == r0.skip(kk);
+                assert(kk == n);
+                assert(s@.skip(k0).skip(n) =~= s@.skip(k0 + n));
+                lemma_utf8len_split(s@, k0); lemma_utf8len_split(s@, k0 + n);
+                assert(self.consumed_is(s, off, k0 + n));
+                axiom_prefix_boundary(s, k0); axiom_prefix_boundary(s, k0 + n);
+                if t.kind == TokenKind::Escaped {
+                    let e = eaten(r0, r1);
+                    assert(e[0] == r0[0]); assert(r0[0] == s@[k0]);
+                    lemma_utf8len_split(s@, k0 + 1);
+                    axiom_prefix_boundary(s, k0 + 1);
+                    lemma_utf8len_split(s@.skip(k0), 1);
+                    assert(s@.skip(k0).subrange(0, 1) =~= seq![s@[k0]]);
+                    assert(utf8len(seq![s@[k0]]) == char_len(s@[k0])) by { assert(seq![s@[k0]].drop_first() =~= Seq::<char>::empty()); }
+                    assert(s@.skip(k0).skip(1) =~= s@.skip(k0 + 1));
+                    if n == 2 {
+                        lemma_utf8len_split(s@.skip(k0 + 1), 1);
+                        assert(s@.skip(k0 + 1).subrange(0, 1) =~= seq![s@[k0 + 1]]);
+                        assert(utf8len(seq![s@[k0 + 1]]) == char_len(s@[k0 + 1])) by { assert(seq![s@[k0 + 1]].drop_first() =~= Seq::<char>::empty()); }
+                        assert(s@.skip(k0 + 1).skip(1) =~= s@.skip(k0 + 2));
+                    }
+                }
+            }
         }
 @*/
 }
